@@ -23,7 +23,7 @@ TRUSTED = [
     "model: coq/Model/MessageM.v (Renderer, Message.to_wire, Rdataset.to_wire, _WireReader, find_rrset index, "
     "UpdateMessage._parse_rr_header, rcode/opcode packing) on top of coq/Model/NameM.v (tw_loop, ctable, relativize)",
     "RDATA is modelled as pieces (opaque octets / compressible name / non-compressible name); readers for "
-    "A NS CNAME SOA PTR MX TXT AAAA SRV RRSIG OPT TSIG, SPF NINFO AVC RESINFO WALLET AFSDB RT RP SSHFP TLSA SMIMEA CERT DNSKEY CDNSKEY OPENPGPKEY EUI48 EUI64 L32 L64 NID HINFO X25 (any class), KX PX DHCID NSAP (class IN) and generic types; other per-type codecs are C02's",
+    "A NS CNAME SOA PTR MX TXT AAAA SRV RRSIG OPT TSIG, SPF NINFO AVC RESINFO WALLET AFSDB RT RP SSHFP TLSA SMIMEA CERT DNSKEY CDNSKEY OPENPGPKEY EUI48 EUI64 L32 L64 NID HINFO X25 NSEC3PARAM URI KEY DS DLV CDS ZONEMD CAA CSYNC NSEC3 (with the constructors' content checks: digest lengths, reserved values, alphanumeric tag, window order) (any class), KX PX DHCID NSAP WKS NAPTR (class IN) and generic types; other per-type codecs are C02's",
     "harness/msggen.py: builds implementation objects through the class constructors and converts parsed "
     "messages back through attribute access (never through to_wire/from_wire of the code under test)",
 ]
@@ -162,6 +162,41 @@ def cases(ctx):
     # hostile hand-made wires
     for w in hostile_wires():
         yield "parse:hostile", [2, w, None, 16]
+    # RDATA that the type's constructor must refuse (or just accept): digest lengths, reserved values, tags,
+    # type-bitmap windows, counted strings, empty targets
+    def one_rr(t, rdata, c=g.IN):
+        return (struct.pack("!HHHHHH", 77, 0x8400, 0, 1, 0, 0) + b"\x01a\x00" +
+                struct.pack("!HHIH", t, c, 60, len(rdata)) + rdata)
+    bad = []
+    for t in (g.DS, g.DLV, g.CDS):
+        for dt, n in ((0, 0), (0, 1), (0, 2), (1, 19), (1, 20), (1, 21), (2, 32), (2, 31), (3, 32), (3, 0), (4, 48), (4, 47), (5, 0), (5, 9), (255, 3)):
+            bad.append((t, struct.pack("!HBB", 1, 8, dt) + bytes(n)))
+        bad += [(t, b""), (t, b"\x00\x01\x08"), (t, b"\x00\x01\x08\x01")]
+    for sc, ha, n in ((0, 1, 48), (1, 0, 48), (1, 1, 48), (1, 1, 47), (1, 2, 64), (1, 2, 48), (1, 3, 0), (2, 240, 5), (255, 255, 100)):
+        bad.append((g.ZONEMD, struct.pack("!IBB", 5, sc, ha) + bytes(n)))
+    bad += [(g.ZONEMD, b"\x00\x00\x00\x05\x01"), (g.ZONEMD, b"")]
+    for tag, val in ((b"issue", b"x"), (b"", b"x"), (b"is sue", b""), (b"A1", b""), (b"\xe9", b"v"), (b"a-b", b"v"), (b"Z" * 255, b"")):
+        bad.append((g.CAA, bytes([0, len(tag)]) + tag + val))
+    bad += [(g.CAA, b""), (g.CAA, b"\x00"), (g.CAA, b"\x00\x05abc")]
+    for bm in (b"", b"\x00\x01\x40", b"\x00\x00", b"\x00\x21" + bytes(33), b"\x00\x20" + bytes(32), b"\x01\x01\x01\x00\x01\x01",
+               b"\x01\x01\x01\x01\x01\x01", b"\x00\x01\x01\x02\x01\x01\xff\x20" + bytes(32), b"\x05", b"\x05\x02\x01", b"\x05\x01\x01\x06"):
+        bad.append((g.CSYNC, struct.pack("!IH", 9, 3) + bm))
+        bad.append((g.NSEC3, struct.pack("!BBH", 1, 0, 10) + b"\x02ab" + b"\x03xyz" + bm))
+    bad += [(g.NSEC3, b"\x01\x00\x00\x0a\x05ab"), (g.NSEC3, b"\x01\x00\x00\x0a\x00\x00"), (g.CSYNC, b"\x00\x00\x00")]
+    bad += [(g.URI, b"\x00\x01\x00\x02"), (g.URI, b"\x00\x01\x00\x02x"), (g.URI, b"\x00\x01\x00"),
+            (g.HINFO, b"\x01a"), (g.HINFO, b"\x01a\x00"), (g.HINFO, b"\x01a\x01b\x00"), (g.X25, b"\x02a"), (g.X25, b""),
+            (g.NSEC3PARAM, b"\x01\x00\x00\x0a\x02ab"), (g.NSEC3PARAM, b"\x01\x00\x00\x0a\x02abc"), (g.NSEC3PARAM, b"\x01\x00\x00\x0a"),
+            (g.EUI48, bytes(5)), (g.EUI48, bytes(6)), (g.EUI48, bytes(7)), (g.EUI64, bytes(8)), (g.EUI64, bytes(9)),
+            (g.L32, bytes(5)), (g.L32, bytes(6)), (g.L32, bytes(7)), (g.L64, bytes(10)), (g.L64, bytes(9)), (g.NID, bytes(11)),
+            (g.SSHFP, b"\x01"), (g.SSHFP, b"\x01\x02"), (g.TLSA, b"\x01\x02"), (g.TLSA, b"\x01\x02\x03"), (g.CERT, bytes(4)), (g.CERT, bytes(5)),
+            (g.DNSKEY, bytes(3)), (g.DNSKEY, bytes(4)), (g.KEY, bytes(4)), (g.RP, b"\x00"), (g.RP, b"\x00\x00"), (g.RP, b"\x00\x00\x00"),
+            (g.AFSDB, b"\x00\x01"), (g.AFSDB, b"\x00\x01\x00"), (g.SPF, b""), (g.SPF, b"\x00"), (g.SPF, b"\x02a"), (g.WKS, bytes(4)), (g.WKS, bytes(5)),
+            (g.NAPTR, bytes(4) + b"\x00\x00\x00\x00"), (g.NAPTR, bytes(4) + b"\x00\x00\x00"), (g.NAPTR, bytes(4) + b"\x01a\x01b\x01c\xc0\x0c"),
+            (g.KX, b"\x00\x01\xc0\x0c"), (g.PX, b"\x00\x01\x00\x00"), (g.PX, b"\x00\x01\x00"), (g.OPENPGPKEY, b""), (g.DHCID, b""), (g.NSAP, b"")]
+    for t, rdata in bad:
+        yield "parse:rdata-checks", [2, one_rr(t, rdata), None, 16]
+        if t in (g.KX, g.PX, g.WKS, g.NAPTR, g.DHCID, g.NSAP, g.DS):
+            yield "parse:rdata-checks", [2, one_rr(t, rdata, c=3), None, 16]
     # rcode / opcode / EDNS packing
     for _ in range(ctx.n(150, 1500)):
         flags = rng.choice([0, 0xFFFF, rng.randrange(65536)])
